@@ -468,26 +468,28 @@ func (d *cnDriver) step() error {
 			}
 		}
 	}
-	if d.rng.Intn(8) == 0 && len(n.vals) > 2 {
-		// a node claims a key another node is registered with (preferably one whose registration has lapsed but is still on
-		// record): refused as a duplicate while that record exists
-		i := d.rng.Intn(len(n.vals))
-		j := d.rng.Intn(len(n.vals))
+	{
+		// a node claims a key another node is registered with - whenever a registration has lapsed but is still on record, its
+		// keys are the target: refused as a duplicate for as long as that record exists
+		var lapsed, recorded []int
 		if nodes, ok := d.lastReg["nodes"].([]map[string]any); ok {
 			for _, x := range nodes {
 				var k int
-				if exp, _ := x["exp"].(int64); exp < epochNow && d.rng.Intn(2) == 0 {
-					if _, err := fmt.Sscanf(x["id"].(string), "N%d", &k); err == nil && k < len(n.vals) {
-						j = k
-					}
+				if _, err := fmt.Sscanf(x["id"].(string), "N%d", &k); err != nil || k >= len(n.vals) {
+					continue
+				}
+				recorded = append(recorded, k)
+				if exp, _ := x["exp"].(int64); exp < epochNow {
+					lapsed = append(lapsed, k)
 				}
 			}
 		}
-		onRecord := false
-		if nodes, ok := d.lastReg["nodes"].([]map[string]any); ok {
-			for _, x := range nodes {
-				onRecord = onRecord || x["id"] == fmt.Sprintf("N%d", j)
-			}
+		i, j, onRecord := d.rng.Intn(len(n.vals)), 0, false
+		switch {
+		case len(lapsed) > 0 && d.rng.Intn(2) == 0:
+			j, onRecord = lapsed[d.rng.Intn(len(lapsed))], true
+		case len(recorded) > 0 && d.rng.Intn(10) == 0:
+			j, onRecord = recorded[d.rng.Intn(len(recorded))], true
 		}
 		if i != j && i != 1 && j != 1 && onRecord {
 			v := n.vals[i]
